@@ -663,6 +663,13 @@ def window_of(name):
             "bartlett": filters.BartlettWindow, "blackman": filters.BlackmanWindow}[name]()
 
 
+def lib_signal(sig_seed, N, dt, silent_tail=False):
+    x = np.random.RandomState(sig_seed).randn(N)
+    if silent_tail:
+        x[(2 * N) // 5:] = 0.0
+    return x.astype(DT[dt])
+
+
 def library_case_run(case):
     """Build the computer of a library-bank case and run compute_full + the chunked stream. Returns
     (comp, bank, x, full, stream) - exceptions propagate."""
@@ -677,7 +684,7 @@ def library_case_run(case):
         # `replay`, evaluates the oracle while the value is still in force and the process then ends)
         from pydrobert.speech import config
         config.LOG_FLOOR_VALUE = case["log_floor_after_ctor"]
-    x = np.random.RandomState(case["sig_seed"]).randn(case["N"]).astype(DT[case["dtype"]])
+    x = lib_signal(case["sig_seed"], case["N"], case["dtype"], case.get("silent_tail", False))
     x.setflags(write=False)
     full = comp.compute_full(x)
     parts, off = [], 0
@@ -745,10 +752,13 @@ def library_oracle_(ctx, n, config, floor0):
         V = D - (L - S + 1) + 1
         N = r.choice([0, 1, S // 2, S, S + 1, L - 1, L, L + 1, V, V + 1, 2 * V + 3, r.randrange(0, 3 * V + 2), 3 * D + 7])
         sig_seed = r.randrange(1 << 30)
-        x = np.random.RandomState(sig_seed).randn(N).astype(DT[dt])
+        # a fixed share of the signals ends in digital silence (last 60 %): silent frames are where "floored at
+        # LOG_FLOOR_VALUE" decides the stored value, in every result dtype
+        silent_tail = done % 4 == 2
+        x = lib_signal(sig_seed, N, dt, silent_tail)
         x.setflags(write=False)
         chunks = random_chunking(r, N)
-        case.update(N=N, chunks=chunks, L=L, S=S, D=D, sig_seed=sig_seed)  # signal = RandomState(sig_seed).randn(N)
+        case.update(N=N, chunks=chunks, L=L, S=S, D=D, sig_seed=sig_seed, silent_tail=silent_tail)
         ctx.case(case, kind="lib:%s:%s:f%d" % (kind, style, dt))
         done += 1
         tags = dict(computer="si", tracer="library", style=style, bank=kind)
@@ -786,6 +796,16 @@ def library_oracle_(ctx, n, config, floor0):
         got = full.astype(np.float64)
         gst = st.astype(np.float64)
         eps = {64: 1e-9, 32: 2e-6, 16: 4e-3}[dt]
+        if T and flags["use_log"]:
+            # "the log is floored at LOG_FLOOR_VALUE": every stored log coefficient is finite and not below log(floor),
+            # in the result's own dtype
+            from pydrobert.speech import config as _cfg
+            lf = float(np.log(_cfg.LOG_FLOOR_VALUE))
+            low = ~(np.isfinite(got) & (got >= lf - 8 * eps * (1 + abs(lf))))
+            if np.any(low):
+                k, i = [int(v) for v in np.argwhere(low)[0]]
+                ctx.violation(case, dict(frame=k, coeff=i, at_least=lf), dict(value=float(got[k, i]), n_bad=int(np.sum(low))),
+                              "with use_log every coefficient is finite and >= log(LOG_FLOOR_VALUE)", tags=dict(clause="log_floor", **tags))
         if T:
             if flags["use_log"]:
                 if dt == 64:
